@@ -29,6 +29,7 @@ type tlcCnt struct {
 	End    IntMap `json:"end"`
 	Err    IntMap `json:"err"`
 	Listen IntMap `json:"listen"`
+	Arm    IntMap `json:"arm"`
 	Cease  int    `json:"cease"`
 }
 
@@ -52,6 +53,15 @@ func (c tlcCnt) flat() map[string]int {
 	for k, v := range c.Listen {
 		if v > 0 {
 			o["listen:"+k] = v
+		}
+	}
+	// soft precondition (known through a verification hook only): see Run
+	for k, v := range c.Arm {
+		if v > 0 {
+			o["arm:"+k] = v
+			// the visit trace of each of those tokens must have been LOGGED as well (the hook
+			// fires in real time, the trace reaches the log a little later)
+			o["visit:"+k] = v
 		}
 	}
 	if c.Cease > 0 {
